@@ -55,6 +55,7 @@ type harnessInfo struct {
 	mode     string
 	unwind   int
 	maxPaths int
+	maxSteps int
 	timeout  int
 	bounds   string
 	outside  string
@@ -229,6 +230,9 @@ func discover(spkgs []*ssa.Package) []*harnessInfo {
 			if v, ok := d["timeout"]; ok {
 				h.timeout, _ = strconv.Atoi(v)
 			}
+			if v, ok := d["steps"]; ok {
+				h.maxSteps, _ = strconv.Atoi(v) // instructions per path (default 400000)
+			}
 			if v, ok := d["replay"]; ok {
 				replayMode[name] = v
 			}
@@ -260,7 +264,7 @@ func runHarness(prog *ssa.Program, spkgs []*ssa.Package, h *harnessInfo, tier in
 		}
 		sol.fullMs = h.timeout
 		return &Engine{Shared: sh, prog: prog, tb: tb, sol: sol, ia: h.mode == "ia", harness: h.name, hprop: h.props[0], tier: tier,
-			maxPaths: h.maxPaths, maxSteps: 400000}
+			maxPaths: h.maxPaths, maxSteps: stepsOr(h.maxSteps, 400000)}
 	}
 	var wg sync.WaitGroup
 	stop := false
@@ -525,4 +529,11 @@ func crossCheck(a, b []*harnessResult) {
 			a[i].inconclusive = append(a[i].inconclusive, fmt.Sprintf("solvers disagree on the number of feasible paths (%d vs %d)", a[i].paths, b[i].paths))
 		}
 	}
+}
+
+func stepsOr(n, def int) int {
+	if n > 0 {
+		return n
+	}
+	return def
 }
